@@ -83,6 +83,11 @@ pub fn first_decl_value(cssout: &str) -> Option<String> {
 /// split "12.5px" into (12.5, "px")
 pub fn split_num(s: &str) -> Option<(f64, String)> {
     let s = s.trim();
+    for (pre, v) in [("-Infinity", f64::NEG_INFINITY), ("Infinity", f64::INFINITY), ("NaN", f64::NAN)] {
+        if let Some(r) = s.strip_prefix(pre) {
+            return Some((v, r.to_string()));
+        }
+    }
     let mut end = 0;
     for (i, c) in s.char_indices() {
         if c.is_ascii_digit() || c == '.' || (i == 0 && c == '-') {
